@@ -5,7 +5,7 @@
    the real sink (coq/extract/Ex_rotate.v extracts these very definitions).
    Quantification: every op list [ops] (Write of any payload / Advance of the wall clock, never
    backwards / Restart / PutForeign), every configuration [c] (any L, any N, all 8 option sets, three
-   timestamp granularities, any base name and suffix), any start time.  Hypothesis [clean c ops]:
+   timestamp granularities, any base name and suffix, any time zone offset within +-24 h), any start time.  Hypothesis [clean c ops]:
    nobody else creates files that follow the sink's own rotated-name scheme (PutForeign names are
    rejected by the sink's recogniser).  The model's wall clock saturates at 9999-12-31. *)
 From Coq Require Import List ZArith Sorted.
@@ -56,8 +56,8 @@ Print Assumptions C05_oracle_holds.
 (* non-vacuity: a history with size, daily and startup rotations, compression, a restart, a foreign
    file and a removal by retention *)
 Example C05_nonvacuous :
-  let w := run src_shape {| cL := 4; cN := 3; startup := true; daily := true; compress := true; cgran := G1s; cbase := [97%N]; csuffix := [108%N] |} 1700000000000
+  let w := run src_shape {| cL := 4; cN := 3; startup := true; daily := true; compress := true; cgran := G1s; cbase := [97%N]; csuffix := [108%N]; ctz := 0 |} 1700000000000
    [Write [97%N]; Write [98%N; 98%N]; Advance 86400000; Write [99%N]; Restart; Write [100%N; 100%N; 100%N];
    PutForeign [120%N] [1%N]; Write [101%N]; Write [102%N]] in
-  (length (hist w), length (gone w), length (rot w), length (act w), prop_c05_b std_shape {| cL := 4; cN := 3; startup := true; daily := true; compress := true; cgran := G1s; cbase := [97%N]; csuffix := [108%N] |} (snap_of w)) = (6%nat, 2%nat, 2%nat, 2%nat, true).
+  (length (hist w), length (gone w), length (rot w), length (act w), prop_c05_b std_shape {| cL := 4; cN := 3; startup := true; daily := true; compress := true; cgran := G1s; cbase := [97%N]; csuffix := [108%N]; ctz := 0 |} (snap_of w)) = (6%nat, 2%nat, 2%nat, 2%nat, true).
 Proof. vm_compute. reflexivity. Qed.
